@@ -1358,6 +1358,14 @@ fn gen(tier: &str, seed: u64, outdir: &str) {
         for b0 in 0..=255u8 {
             o.push("sweep3", "X", format!("{:02x} 2", b0));
         }
+    } else {
+        // quick tier: all strings of length 3 behind the 16 most interesting control bytes
+        for b0 in [
+            0x15u8, 0x16, 0x17, 0x18, 0x35, 0x38, 0x0c, 0x0d, 0x0f, 0x10, 0x13, 0x30, 0x04, 0x24,
+            0x14, 0xf5,
+        ] {
+            o.push("sweep3-sample", "X", format!("{:02x} 2", b0));
+        }
     }
     // every control byte followed by a few fixed tails, explicitly (visible in the evidence samples)
     for b0 in 0..=255u8 {
